@@ -5,6 +5,10 @@
 //	nascount digest <spec.json> <out.ndjson>    function-table digests per (operation, arguments, chunk)
 //	nascount expand <spec.json> <out.ndjson>    every element of one chunk as an Apply event
 //
+// History events are ONE public call each: the operation, its arguments and, for Get/SQN/Overflow, the
+// value returned.  The driver never reads the counter on its own after a call (only the verif raw word,
+// which does not touch it, is logged as information): which reads happen, when and in which order is part
+// of the history, because a read is an operation too (Get writes the masked value back).
 // The driver only calls the real API and writes what it saw; every comparison is made by TLC
 // (spec/trace/Trace_C11.tla).
 package main
@@ -36,6 +40,7 @@ type Ev struct {
 	Via   string `json:"via"`
 	Sums  []int  `json:"sums"`
 	Sums2 []int  `json:"sums2"`
+	Sums3 []int  `json:"sums3"`
 }
 
 type Op struct {
@@ -58,7 +63,7 @@ type sess struct {
 }
 
 // observe fills what the three read operations report, SQN/Overflow before and after Get
-// (Get is the only read with a write in it).
+// (Get is the only read with a write in it).  Used by the stateless Apply events only.
 func (s *sess) observe(e *Ev) {
 	e.Sqn = int64(s.cnt.SQN())
 	e.Ovf = int64(s.cnt.Overflow())
@@ -67,8 +72,16 @@ func (s *sess) observe(e *Ev) {
 	e.Ovf2 = int64(s.cnt.Overflow())
 	raw := s.cnt.VerifRaw()
 	e.RawHi, e.RawLo = int64(raw>>16), int64(raw&0xffff)
-	e.Sums, e.Sums2 = none, none
+	e.Sums, e.Sums2, e.Sums3 = none, none, none
 	s.n += 5
+}
+
+// rawOnly logs the raw word (information; VerifRaw does not modify the counter)
+func (s *sess) rawOnly(e *Ev) {
+	raw := s.cnt.VerifRaw()
+	e.RawHi, e.RawLo = int64(raw>>16), int64(raw&0xffff)
+	e.Sqn, e.Ovf, e.Get, e.Sqn2, e.Ovf2 = -1, -1, -1, -1, -1 // not read
+	e.Sums, e.Sums2, e.Sums3 = none, none, none
 }
 
 // apply performs one public operation and returns the value the call itself returned (-1 if none).
@@ -82,6 +95,10 @@ func apply(c *security.Count, op string, a, b int64) int64 {
 		c.SetOverflow(uint16(a))
 	case "AddOne":
 		c.AddOne()
+	case "AddRun": // a increments in a row (stateless Apply / Digest events only)
+		for i := int64(0); i < a; i++ {
+			c.AddOne()
+		}
 	case "Get":
 		return int64(c.Get())
 	case "SQN":
@@ -95,7 +112,7 @@ func apply(c *security.Count, op string, a, b int64) int64 {
 }
 
 func (s *sess) reset() {
-	s.w.Emit(Ev{Op: "TraceReset", Ret: -1, RawHi: -1, Sums: none, Sums2: none})
+	s.w.Emit(Ev{Op: "TraceReset", Ret: -1, RawHi: -1, Sums: none, Sums2: none, Sums3: none})
 }
 
 func (s *sess) start(via string, v int64) {
@@ -104,12 +121,12 @@ func (s *sess) start(via string, v int64) {
 	switch via {
 	case "new":
 		e := Ev{Op: "New", Ret: -1, Via: via}
-		s.observe(&e)
+		s.rawOnly(&e)
 		s.w.Emit(e)
 	case "raw":
 		s.cnt.VerifSetRaw(uint32(v))
 		e := Ev{Op: "SetRaw", A: v, Ret: -1, Via: via}
-		s.observe(&e)
+		s.rawOnly(&e)
 		s.w.Emit(e)
 	case "set":
 		s.do("Set", v>>8, v&0xff)
@@ -122,8 +139,31 @@ func (s *sess) do(op string, a, b int64) {
 	e := Ev{Op: op, A: a, B: b}
 	e.Ret = apply(s.cnt, op, a, b)
 	s.n++
-	s.observe(&e)
+	s.rawOnly(&e)
 	s.w.Emit(e)
+}
+
+// read patterns: which reads follow a write, and in which order.  The first eight determine the whole value.
+var patterns = [][]string{
+	{"SQN", "Overflow", "Get", "SQN", "Overflow"},
+	{"Get"},
+	{"SQN", "Overflow"},
+	{"Overflow", "SQN"},
+	{"Get", "SQN", "Overflow"},
+	{"SQN", "Get", "SQN", "Overflow"},
+	{"Overflow", "Get", "Overflow", "SQN"},
+	{"Get", "Get", "Overflow", "SQN"},
+	{"SQN"},
+	{"Overflow"},
+	{},
+}
+
+const fullPatterns = 8
+
+func (s *sess) reads(k int) {
+	for _, r := range patterns[k] {
+		s.do(r, 0, 0)
+	}
 }
 
 var allOps = []string{"Set", "SetSQN", "SetOverflow", "AddOne", "AddOne", "AddOne", "Get", "SQN", "Overflow"}
@@ -132,8 +172,8 @@ func record(out string) {
 	rng := ev.Rng()
 	s := &sess{w: ev.Create(out)}
 	thorough := ev.Thorough()
-	// (1) every carry (sequence number 255 -> 0 into overflow o+1) and the wrap at 2^24-1, from states
-	// reached through the public Set, 256 carries per history
+	// (1) every carry (sequence number 255 -> 0 into overflow o+1) and the wrap at 2^24-1, from states reached
+	// through the public Set, 256 carries per history; the reads that follow vary with o
 	for o := int64(0); o < 65536; o++ {
 		if o%256 == 0 {
 			s.start("set", o<<8|0xfe)
@@ -142,6 +182,7 @@ func record(out string) {
 			s.do("Set", o, 255)
 		}
 		s.do("AddOne", 0, 0)
+		s.reads(int(o+o/256) % fullPatterns)
 	}
 	// (2) the same through the raw hook: all of them in thorough, a seeded sample in quick
 	for o := int64(0); o < 65536; o++ {
@@ -150,9 +191,43 @@ func record(out string) {
 		}
 		s.start("raw", o<<8|0xff)
 		s.do("AddOne", 0, 0)
+		if o%3 == 0 {
+			s.reads(rng.Intn(len(patterns)))
+		}
 		s.do("AddOne", 0, 0)
+		s.reads(int(o) % fullPatterns)
 	}
-	// (3) long runs of increments with reads in between, from seeded states and across the wrap
+	// (3) runs of 2..300 increments with NO read in between across every kind of boundary (sequence number
+	// carry, overflow byte carry, 16-bit sign boundary of the overflow part, the wrap at 2^24), then reads in
+	// every order; the run starts 1..n-1 steps before the boundary so that it crosses it
+	bounds := []int64{1 << 24, 1 << 16, 0x800000, (int64(rng.Intn(65534)) + 1) << 8, (int64(rng.Intn(255)) + 1) << 16}
+	for bi, bnd := range bounds {
+		for n := 2; n <= 300; n++ {
+			if !thorough && bi >= 1 && n > 12 && (n+bi)%5 != 0 {
+				continue
+			}
+			before := int64(1 + rng.Intn(n-1))
+			if n%4 == 0 {
+				before = 1 // the boundary is crossed by the first increment
+			}
+			if n%4 == 1 {
+				before = int64(n - 1) // ... by the last but one
+			}
+			v := bnd - before
+			via := "set"
+			if (n+bi)%2 == 1 {
+				via = "raw"
+			}
+			s.start(via, v)
+			for i := 0; i < n; i++ {
+				s.do("AddOne", 0, 0)
+			}
+			s.reads((n + bi) % fullPatterns)
+			s.do("AddOne", 0, 0)
+			s.reads((n + bi + 3) % len(patterns))
+		}
+	}
+	// (4) long runs of increments with occasional reads of a random kind, from seeded states and across the wrap
 	runs, runLen := 6, 1500
 	if thorough {
 		runs, runLen = 40, 6000
@@ -173,8 +248,10 @@ func record(out string) {
 				s.do([]string{"Get", "SQN", "Overflow"}[rng.Intn(3)], 0, 0)
 			}
 		}
+		s.reads(r % fullPatterns)
 	}
-	// (4) seeded mixes of every operation with arguments over the full ranges
+	// (5) seeded mixes of every operation (reads included, chosen by the seed) with arguments over the full
+	// ranges; every fourth history reads everything after every step, the others only what the mix contains
 	nh, hl := 1500, 30
 	if thorough {
 		nh, hl = 12000, 60
@@ -187,6 +264,7 @@ func record(out string) {
 			s.start("raw", int64(rng.Intn(1<<24)))
 		default:
 			s.start("new", 0)
+			s.do("Get", 0, 0)
 		}
 		for i := 0; i < hl; i++ {
 			op := allOps[rng.Intn(len(allOps))]
@@ -200,7 +278,13 @@ func record(out string) {
 				a = pick16(rng.Intn(1<<16), rng.Intn(8))
 			}
 			s.do(op, a, b)
+			if h%4 == 0 {
+				s.reads(0)
+			} else if rng.Intn(5) == 0 {
+				s.reads(rng.Intn(len(patterns)))
+			}
 		}
+		s.reads(h % fullPatterns)
 	}
 	s.w.Close()
 	os.Stderr.WriteString("calls " + itoa(s.n) + "\n")
@@ -285,7 +369,7 @@ func digest(in, out string) {
 	w := ev.Create(out)
 	var calls int64
 	one := func(via string, k int64, o Op) {
-		var s1, s2 [3]int64
+		var s1, s2, s3 [3]int64
 		for x := k << 16; x < (k+1)<<16; x++ {
 			var c security.Count
 			place(&c, via, x)
@@ -304,15 +388,17 @@ func digest(in, out string) {
 					comp = ret*256 + sqn
 				}
 			}
+			comp2 := int64(c.Overflow())*256 + int64(c.SQN()) // the same reads once more, after Get
 			for i, p := range primes {
 				wt := 1 + x%(p-1)
 				s1[i] = (s1[i] + wt*(get%p)) % p
 				s2[i] = (s2[i] + wt*(comp%p)) % p
+				s3[i] = (s3[i] + wt*(comp2%p)) % p
 			}
-			calls += 5
+			calls += 7
 		}
 		w.Emit(Ev{Op: "Digest", Fn: o.Op, A: o.A, B: o.B, Chunk: k, Via: via, Ret: -1, RawHi: -1,
-			Sums: []int{int(s1[0]), int(s1[1]), int(s1[2])}, Sums2: []int{int(s2[0]), int(s2[1]), int(s2[2])}})
+			Sums: []int{int(s1[0]), int(s1[1]), int(s1[2])}, Sums2: []int{int(s2[0]), int(s2[1]), int(s2[2])}, Sums3: []int{int(s3[0]), int(s3[1]), int(s3[2])}})
 	}
 	for _, o := range sp.Ops {
 		for _, k := range sp.Chunks {
